@@ -15,7 +15,7 @@ Tie to source
   * kernel results (leig, peig, eig, pinv, solve, inv, newton) are parameters of the
     model; the contract each theorem assumes of them is checked numerically here.
 
-Oracles (implementation only, first principles): `solve`, `monotone`, `history`.
+Oracles (implementation only, first principles): `solve`, `monotone`, `history`, `refill`.
 """
 import copy
 import math
@@ -126,6 +126,25 @@ CLAIM = {
             'fork the numeric result of a later solve is not compared bitwise (another memory layout legitimately selects '
             'another eigenvector of an under-determined system).  R14 counts: K = 257 users in every quick run, 258 / 300 / '
             '257 with a min-leakage solve in thorough, max_iterations 257 / 300; the theorems hold for every K.  '
+            'ROBUSTNESS CLASSES R15-R16.  R15 distinct values that are merely close: by theorem '
+            '(setter_takes_effect_for_every_new_value: after P = v from ANY state the getters return the new value and '
+            'F*sqrt(new value), the previous power and cache do not enter; power_lookup_exact: different accepted powers are '
+            'never identified; matrix_setters_take_effect_for_every_new_value) + correspondence and oracle on deterministic '
+            'histories in every run: powers 1e-9..1e-15 after each other, 2.4e9 vs 2.4e9+2e4, adjacent doubles around 0.3 / 1.0, '
+            'differences beyond the 12th decimal, through P= / randomizeF / set_precoders / solve on the base class and the '
+            'solvers; precoders, scaled precoders and filters followed by a variant one ulp / 1e-13 / 1e-9 / 1e-6 away, '
+            'filters of magnitude 1e-12 vs 1e-13; channel refills that differ by a relative 1e-6; stored powers compared '
+            'exactly, everything else relative.  R16 argument identity and buffer reuse: by theorem '
+            '(buffer_reuse_equals_fresh_copies: a history driven through ONE refilled buffer, also in several roles of one '
+            'call, equals the run on private copies made at call time; later_refills_do_not_change_earlier_outputs) + '
+            'correspondence (a quarter of the random histories and one deterministic history per object kind hand every '
+            'array argument - P, Ns, F, full_F, W, W_H and their containers - over in one buffer per role that is refilled '
+            'in place before and overwritten right after every call; one container as F and full_F, one matrix object for '
+            'all users, one integer array as Ns and P, the object\'s own F / full_F / W / W_H / P handed back to its setters; '
+            'the model sees the contents at call time) + oracle (twin object fed fresh arrays; refill oracle: ONE channel '
+            'matrix buffer refilled and re-installed in the SAME channel object before 2-4 solves of the SAME solver of every '
+            'kind, k-th solution = that of a fresh solver on a fresh channel built from a copy, relations and closed-form '
+            'nulling for the CURRENT channel, arrays returned earlier unchanged).  '
             'Closed form (directly, use_best_init True/False, and as the closed_form initialisation of every '
             'iterative solver): exercised for N = 2..8 and EVERY Ns in 1..N/2 (its domain: 3 users, one antenna count, N - Ns >= '
             'Ns; the code needs square channels; above N/2 perfect nulling is impossible), with the stream-shape clause '
@@ -718,6 +737,7 @@ class Hist:
             self.s.max_iterations = vary_count(case.get('iters', 3), case.get('iters_ty'))
         self.mode = 'random'     # the initialisation mode in force
         self.parents = []        # (object, observables) left behind by a fork (class R13)
+        self.given = {}          # attribute -> snapshot of the matrices handed to the last matrix setter
         self.pair_fail = None    # disagreement of two entry points documented as equivalent (class R8)
         self.tokens = []
         self.outs = []
@@ -795,6 +815,7 @@ class Hist:
                 self.scribble()
 
     def do_op(self, op):
+        self.given = {}
         name = op[0]
         s = self.s
         K = self.K
@@ -862,6 +883,7 @@ class Hist:
                           'R1:container:%s' % cty if cty in ('list', 'tuple') else None,
                           parg_tag(('v', P, pty)) if P is not None else None)
                 self.inputs(('F', Fa), ('full_F', fa), ('P', Pa))
+                self.given = {'_F': freeze(Fa), '_full_F': freeze(fa)}
                 form = d.get('form')
                 self.note('R8:form:' + form if form else None)
                 if form == 'pos':
@@ -903,6 +925,7 @@ class Hist:
                 self.note(mat_tag(mty),
                           'R1:container:%s' % cty if cty in ('list', 'tuple') else None)
                 self.inputs(('W_H', wha), ('W', wa))
+                self.given = {'_W_H': freeze(wha), '_W': freeze(wa)}
                 form = d.get('form')
                 self.note('R8:form:' + form if form else None)
                 if form == 'pos':            # documented order: (W_H, W)
@@ -1841,6 +1864,18 @@ def o_history(case):
                 got = [float(x) for x in np.asarray(h.s.P, dtype=float).reshape(-1)]
                 if got != want:
                     return ('power-not-stored:%s%s' % (name, sfx), 'op %d: P given %r, P afterwards %r' % (i, want[:4], got[:4]))
+        if out[0] != 'err' and name in ('setprec', 'setfilt'):
+            # class R15: the matrices given are stored as the values they are (an exact copy, whatever was stored
+            # before and however close to it they are)
+            for fld, want in h.given.items():
+                if want is None:
+                    continue
+                got = getattr(h.s, fld)
+                if got is None or len(got) != len(want) or not all(
+                        np.shape(a) == np.shape(b) and np.array_equal(np.asarray(a), np.asarray(b)) for a, b in zip(got, want)):
+                    near = op[1].get('near') or ('scale' if op[1].get('scale') else None)
+                    return ('matrix-not-stored:%s:%s%s%s' % (name, fld, ':R15:' + near if near else '', sfx),
+                            'op %d: %s does not hold exactly the matrices given to %s' % (i, fld, name))
         if rejected:
             # what the harness itself does around the call (mode selection, seeding) also happens on the twin
             if name == 'solve':
@@ -2257,12 +2292,12 @@ def r16_histories(rng, quick):
                 ops += [['rand', nsv(), pv(), sd + i]] + reads[:2]
             for i in range(3):
                 ops += [['setP', pv()]] + reads[1:2]
-            for i in range(3):
-                ops += [['setprec', {'ns': [ns] * K, 'F': sd + 10 + i, 'fullF': None, 'P': pv()[1], 'amp_P': [1.0] * K,
-                                     'cty': ['objarr', 'list', 'objarr'][i]}], ['rF'], ['rFF']]
-            for i in range(4):
-                ops += [['setfilt', {'which': ['W', 'WH'][i % 2], 'seed': sd + 20 + i // 2, 'ns': [ns] * K,
-                                     'cty': ['objarr', 'list'][i // 2 % 2]}]] + reads[2:5]
+            for i in range(4):       # the same container object (and the same matrices in it) twice in a row
+                ops += [['setprec', {'ns': [ns] * K, 'F': sd + 10 + i, 'fullF': None, 'P': pv()[1] if i % 2 else None,
+                                     'amp_P': [1.0] * K, 'cty': ['objarr', 'objarr', 'list', 'list'][i]}], ['rF'], ['rFF']]
+            for i in range(6):
+                ops += [['setfilt', {'which': ['W', 'W', 'WH', 'WH', 'W', 'W'][i], 'seed': sd + 20 + i, 'ns': [ns] * K,
+                                     'cty': ['objarr', 'objarr', 'objarr', 'objarr', 'list', 'list'][i]}]] + reads[2:5]
             ops += [['setprec', {'ns': [ns] * K, 'F': sd + 30, 'fullF': None, 'P': [1.0] * K, 'amp_P': [1.0] * K,
                                  'alias': 'F=fullF'}]] + reads
             ops += [['setprec', {'ns': [ns] * K, 'F': sd + 31, 'fullF': None, 'P': None, 'amp_P': [1.0] * K,
